@@ -112,12 +112,25 @@ type backend struct {
 	wait       time.Duration
 	lapse      func()
 	look       func() (bool, string)
+	// pollNotify: under machine load a keep-alive tick can be late; a wait is extended (bounded) until
+	// the registrants whose lease the harness revoked have been notified
+	pollNotify bool
 }
 
 func runSchedule(ctx context.Context, b *backend, path string, evs []event) []obs {
 	expiry := make([]<-chan struct{}, nRegs)
 	stop := make([]func(), nRegs)
 	out := []obs{}
+	creator, creatorFast := -1, false
+	lapsedFast := map[int]bool{}
+	closed := func(p int) bool {
+		select {
+		case <-expiry[p]:
+			return true
+		default:
+			return false
+		}
+	}
 	for _, e := range evs {
 		o := obs{R: "-"}
 		switch e.Ev {
@@ -131,6 +144,8 @@ func runSchedule(ctx context.Context, b *backend, path string, evs []event) []ob
 			case err == nil:
 				expiry[e.P], stop[e.P] = ex, st
 				o.R = "ok"
+				creator, creatorFast = e.P, e.Cls != "slow"
+				delete(lapsedFast, e.P)
 			case errors.Is(err, types.ErrKeyExists):
 				o.R = "exists"
 			default:
@@ -167,6 +182,8 @@ func runSchedule(ctx context.Context, b *backend, path string, evs []event) []ob
 				case r.err == nil:
 					expiry[ids[i]], stop[ids[i]] = r.ex, r.st
 					won = append(won, ids[i])
+					creator, creatorFast = ids[i], e.Cls != "slow"
+					delete(lapsedFast, ids[i])
 				case !errors.Is(r.err, types.ErrKeyExists):
 					other = "other:" + r.err.Error()
 				}
@@ -186,10 +203,32 @@ func runSchedule(ctx context.Context, b *backend, path string, evs []event) []ob
 				stop[e.P]()
 			}
 			expiry[e.P], stop[e.P] = nil, nil
+			delete(lapsedFast, e.P)
+			if creator == e.P {
+				creator = -1
+			}
 		case "lapse":
+			if present, _ := b.look(); present && creator >= 0 && creatorFast {
+				lapsedFast[creator] = true
+			}
+			creator = -1
 			b.lapse()
 		case "wait":
 			time.Sleep(b.wait)
+			if b.pollNotify {
+				for end := time.Now().Add(4 * time.Second); time.Now().Before(end); {
+					pending := false
+					for p := range lapsedFast {
+						if expiry[p] != nil && !closed(p) {
+							pending = true
+						}
+					}
+					if !pending {
+						break
+					}
+					time.Sleep(100 * time.Millisecond)
+				}
+			}
 		}
 		o.Key, o.TTL = b.look()
 		o.Notified = make([]bool, nRegs)
@@ -220,7 +259,7 @@ type env struct {
 func (e *env) runCase(ctx context.Context, k *kase) {
 	k.Impl = map[string][]obs{}
 	path := "/eph/" + k.ID
-	eb := &backend{start: e.etcd.StartEphemeral, fast: 3 * time.Second, slow: 90 * time.Second, wait: 1300 * time.Millisecond}
+	eb := &backend{start: e.etcd.StartEphemeral, fast: 3 * time.Second, slow: 90 * time.Second, wait: 1300 * time.Millisecond, pollNotify: true}
 	eb.lapse = func() {
 		resp, err := e.cli.Get(ctx, path)
 		if err == nil && len(resp.Kvs) == 1 && resp.Kvs[0].Lease != 0 {
